@@ -12,7 +12,7 @@ from translators import gen_c17
 LEVEL = 'proof'
 HARNESS = os.path.join(vf.VERIF, 'harness/py/c17_enum.py')
 OPNAME = {'C': 'call', 'P': 'call-numpy-int', 'A': 'adapter', 'N': 'call-name', 'G': 'getitem-name', 'I': 'getitem-int', 'F': 'from-string-ci',
-          'L': 'iter', 'K': 'len', 'R': 'reversed', 'RT': 'mask-roundtrip', 'B': 'to-bitmask', 'V': 'to-values',
+          'L': 'iter', 'K': 'len', 'R': 'reversed', 'IT': 'iter-open-during-conversions', 'RIT': 'reversed-open-during-conversions', 'RT': 'mask-roundtrip', 'B': 'to-bitmask', 'V': 'to-values',
           'MK': 'make-mask', 'MR': 'real-mask', 'ST': 'private-state', 'E': 'enum', 'T': 'synthetic-enum'}
 
 
@@ -86,42 +86,97 @@ def snapshot(rng, names, full):
     return lines
 
 
+ARGKIND = {'h': 'held-member-object', 'f': 'member-of-another-enum', 'g': 'member-of-another-enum-shared-name', 'b': 'bool', 'u': 'numpy-int'}
+
+
+def tagged(rng, v, seen_any):
+    """the integer as one of the kinds of Python object a caller may hold: plain int, the member object an earlier
+    conversion returned, a member of another enumeration with that value, a bool, a numpy integer"""
+    r = rng.random()
+    if r < 0.45:
+        return hx(v)
+    if r < 0.70 and seen_any:
+        return 'h:' + hx(v)
+    if r < 0.82:
+        return 'f:' + hx(v)
+    if r < 0.88 and v in (0, 1):
+        return 'b:' + hx(v)
+    return 'u:' + hx(v)
+
+
 def value_history(rng, setup, names, values, order, full, hidden_probes):
     """setup line, baseline snapshot, strict pass, lenient first encounters in the given order interleaved with
-    strict calls / lookups / list / len, final snapshot, strict pass after everything was seen, lenient again"""
+    strict calls / lookups / list / len, final snapshot, strict pass after everything was seen, lenient again.
+    Arguments are passed as plain ints and as the other integer-valued objects a caller may hold; some first
+    encounters happen while an iteration over the class is open."""
     lines = [setup] + snapshot(rng, names, full)
     strict_sample = values if full else rng.sample(values, min(len(values), 24))
     for v in strict_sample:
         lines.append('%s %s 1' % (rng.choice('CCA'), hx(v)))
         if rng.random() < 0.3:
-            lines.append('I %s' % hx(v))
+            lines.append('I %s' % tagged(rng, v, False))
     small = ['L', 'K', 'R'] + ['G %s' % n for n in names[:6]] + ['N %s 1' % n.lower() for n in names[:6]] + ['G NOPE', 'F nope']
-    seen = []
-    for v in order:
+    seen, seen_plain = [], []
+    i = 0
+    n_open = 0
+    while i < len(order):
+        v = order[i]
+        i += 1
+        if rng.random() < 0.04 or (n_open < 2 and i > min(3, len(order) - 1)):
+            # first encounters while an iterator is open
+            k = rng.randint(1, 3)
+            group = [v] + order[i:i + k - 1]
+            i += len(group) - 1
+            lines.append('%s %s' % (rng.choice(('IT', 'RIT')) if n_open >= 2 else ('IT', 'RIT')[n_open], ','.join(hx(x) for x in group)))
+            n_open += 1
+            seen += group
+            seen_plain += group
+            continue
         r = rng.random()
         if r < 0.25:
             lines.append('C %s 1' % hx(v))
-        lines.append('%s %s 0' % (rng.choice('AAAPCCCCCC'), hx(v)))
+        kind = rng.choice('AAAPCCCCCCCT')
+        if kind == 'T':
+            t = rng.choice(['f:', 'u:'] + (['b:'] if v in (0, 1) else []))
+            lines.append('C %s%s 0' % (t, hx(v)))
+            if t == 'u:':
+                seen_plain.append(v)
+        else:
+            lines.append('%s %s 0' % (kind, hx(v)))
+            seen_plain.append(v)
         seen.append(v)
         r = rng.random()
         if r < 0.45:
-            lines.append('%s %s 1' % (rng.choice('CCA'), hx(v)))           # strict after seen
+            c = rng.choice('CCCA')
+            if c == 'A':
+                lines.append('A %s 1' % hx(v))                              # strict after seen
+            else:
+                lines.append('C %s 1%s' % (tagged(rng, v, True), rng.choice(('', ' d'))))
         elif r < 0.6:
-            lines.append('I %s' % hx(v))
+            lines.append('I %s' % tagged(rng, v, True))
         elif r < 0.7:
             w = rng.choice(seen)
-            lines.append('C %s %d' % (hx(w), rng.randrange(2)))            # an earlier value again
+            lines.append('C %s %d' % (tagged(rng, w, True), rng.randrange(2)))   # an earlier value again
         if rng.random() < 0.06:
             lines.append(rng.choice(small))
-        if hidden_probes and rng.random() < 0.04:
-            w = rng.choice(seen)
+        if hidden_probes and seen_plain and rng.random() < 0.04:
+            w = rng.choice(seen_plain)
             lines += ['G ' + hname(w), 'G ' + hname(w).lower(), 'N %s 1' % hname(w), 'F ' + hname(w).lower(), 'N %s 0' % hname(w)]
     lines += snapshot(rng, names, full)
     for v in values:
-        lines.append('C %s 1' % hx(v))
+        lines.append('C %s 1' % (hx(v) if rng.random() < 0.7 else tagged(rng, v, True)))
     for v in (values if full else rng.sample(values, min(len(values), 64))):
-        lines.append('C %s 0' % hx(v))
-    lines += ['L', 'K', 'R', 'ST']
+        lines.append('C %s 0' % (hx(v) if rng.random() < 0.7 else tagged(rng, v, True)))
+    lines += ['IT -', 'RIT -', 'L', 'K', 'R', 'ST']
+    return lines
+
+
+def foreign_history(rng, setup, values):
+    """members of other enumerations that share one *name*: the hidden member is named after the argument's text"""
+    lines = [setup, 'L', 'K']
+    vs = rng.sample(values, min(len(values), 6))
+    for v in vs:
+        lines += ['C g:%s 0' % hx(v), 'C %s 1' % hx(v), 'C g:%s 1' % hx(v), 'C %s 0' % hx(v), 'L', 'K', 'R']
     return lines
 
 
@@ -210,7 +265,9 @@ def mask_lines(rng, members, off, included, thorough, names_ok):
 # ------------------------------------------------------------------------------------------------------------
 
 def classify(op, impl_pub, spec):
-    if op in ('L', 'K', 'R'):
+    if op in ('L', 'K', 'R', 'IT', 'RIT'):
+        if impl_pub == 'SR':
+            return 'iteration-raises'
         hid = lambda t: any(x.startswith(HID['prefix']) for x in t.split(' ', 1)[-1].split(','))
         if hid(impl_pub) and not hid(spec):
             return 'hidden-members-listed'
@@ -241,22 +298,25 @@ def analyse(lines, impl, mdl, fam, ctx=None):
             if a.split()[:2] != b.split()[:2]:
                 yield ('corr', i, 'enumeration %r: the class has %s, the generated table %s' % (line, a, b))
             continue
-        if op in ('C', 'A', 'P', 'N', 'G', 'I', 'F', 'L', 'K', 'R'):
+        if op in ('C', 'A', 'P', 'N', 'G', 'I', 'F', 'L', 'K', 'R', 'IT', 'RIT'):
             impl_raw, impl_pub = ap[0], ap[1]
             mdl_raw, mdl_pub, spec, allowed = bp[0], bp[1], bp[2], bp[3] == '1'
             if ctx:
                 ctx.case((op, fam, impl_pub.split()[0], line if op in ('L', 'K', 'R') else line.split()[1], tainted), nontrivial=True)
+                if ':' in line:
+                    ctx.count('argument:' + ARGKIND.get(line.split()[1].split(':')[0], 'int'))
                 ctx.count('outcome:' + impl_pub.split()[0] + ('' if allowed else '/outside-property-histories'))
             if not allowed and bp[4] == '1':
                 tainted = True           # a lenient conversion of an unknown name defined a member: outside the property's histories
             if table_ok and allowed and not tainted and impl_pub != spec:
-                yield ('violation', i, {'history': 'values-only', 'op': OPNAME[op],
-                                        'class': classify(op, impl_pub, spec)}, impl_pub, spec)
+                w1 = line.split()[1] if len(line.split()) > 1 else ''
+                yield ('violation', i, {'history': 'values-only', 'op': OPNAME[op], 'class': classify(op, impl_pub, spec),
+                                        'arg': ARGKIND.get(w1.split(':')[0], 'int') if ':' in w1 else 'int'}, impl_pub, spec)
             elif table_ok and tainted and impl_pub != spec:
                 # a lenient conversion of an unknown *name* defined a visible member: the property quantifies over
                 # integer conversions only, so this is reported as information, never as a violation or finding
                 yield ('advisory', i, 'outside the property (lenient unknown NAME defines a member): %s gives %r, the values-only SPEC %r' % (OPNAME[op], impl_pub, spec))
-            if impl_raw != mdl_raw:
+            if impl_raw != mdl_raw and fam != 'foreign':
                 if impl_pub == mdl_pub and impl_pub.startswith('SU'):
                     yield ('advisory', i, 'hidden member naming differs (private): impl %r, model %r' % (impl_raw, mdl_raw))
                 else:
@@ -267,6 +327,11 @@ def analyse(lines, impl, mdl, fam, ctx=None):
                 yield ('advisory', i, 'private attributes of the class are gone; %s compared on public results only' % OPNAME[op])
                 if op != 'ST' and not b.startswith('ok'):
                     yield ('corr', i, '%s: implementation builds the helper, model %r' % (line, b))
+            elif op == 'ST':
+                # the names of hidden members are the library's private naming: compare positions and values only
+                norm = lambda t: ','.join((HID['prefix'] + '*:' + x.split(':')[1]) if x.startswith(HID['prefix']) else x for x in t.split(' ', 1)[-1].split(','))
+                if norm(a) != norm(b) and fam != 'foreign':
+                    yield ('corr', i, '%s: implementation %r, model %r' % (line, a, b))
             elif a != b:
                 yield ('corr', i, '%s: implementation %r, model %r' % (line, a, b))
             if ctx:
@@ -280,7 +345,7 @@ def analyse(lines, impl, mdl, fam, ctx=None):
             if ctx:
                 ctx.case((op, line, a[:1]), nontrivial=True)
             if 'BAD:' in a:
-                yield ('violation', i, {'history': 'mask', 'op': OPNAME[op], 'class': 'to_string-or-class-inconsistent'}, a, b)
+                yield ('violation', i, {'history': 'mask', 'op': OPNAME[op], 'class': a.split('BAD:')[1].split()[0]}, a, b)
             elif a != b:
                 yield ('corr', i, '%s: implementation %r, model %r' % (line, a, b))
             continue
@@ -289,6 +354,9 @@ def analyse(lines, impl, mdl, fam, ctx=None):
             if ctx:
                 ctx.case((op, line, a[:1], pre), nontrivial=True)
                 ctx.count('roundtrip:' + ('defined' if pre else 'outside-precondition') + ':' + a[:1])
+            if 'BAD:' in a:
+                yield ('violation', i, {'history': 'mask', 'op': 'mask-roundtrip', 'class': a.split('BAD:')[1].split()[0]}, a, 'L' + spec[2:])
+                continue
             if pre and a != 'L' + spec[2:]:
                 yield ('violation', i, {'history': 'mask', 'op': 'mask-roundtrip', 'class': 'refused' if a.startswith('X') else 'different-set'}, a, 'L' + spec[2:])
             if a != mdl_raw:
@@ -392,6 +460,14 @@ def run(ctx):
         for t in synthetic_tables(rng, 4):
             lines += lenient_name_history(rng, 'T ' + tok_members(t), [n for n, _ in t], None)
         jobs.append({'family': 'lenient-name', 'lines': lines, 'name': 'lenient-name-%d' % h})
+
+    # ---- members of other enumerations sharing one name (known finding) -----------------------------------
+    lines = []
+    for key, members in enums:
+        if key not in mask_keys:
+            known = {v for _, v in members}
+            lines += foreign_history(rng, 'E ' + key, [v for v in range(0, 40) if v not in known])
+    jobs.append({'family': 'foreign', 'lines': lines, 'name': 'foreign-shared-name'})
 
     # ---- family (d): mask helpers ------------------------------------------------------------------------
     lines = []
@@ -501,7 +577,9 @@ def shrink(exe, lines, idx, fam, want, minimise=True):
 
     def mutating(l):
         w = l.split()
-        return (w[0] in ('C', 'A', 'P', 'N') and w[-1] == '0') or w[0] == 'MK'
+        if target.split()[0] in ('RT', 'V', 'B') and w[0] in ('RT', 'V', 'B'):
+            return True                  # a helper that remembers earlier calls makes these state-changing too
+        return (w[0] in ('C', 'A', 'P', 'N') and w[-1] == '0') or w[0] in ('MK', 'IT', 'RIT')
     budget = [18]
 
     def same(cand):
